@@ -72,6 +72,14 @@ package tcp
 //@   assigns *
 //@   ensures [both-directions-awaited] @C09 chanRecvs - old(chanRecvs) == goSpawns - old(goSpawns)
 //@
+//@ // ending a direction sends no payload: the peer is told that the stream is over (half-close where possible, close
+//@ // otherwise); nothing is consumed from or delivered to either stream
+//@ func closeWrite
+//@   props C09
+//@   requires c != nil
+//@   assigns nothing
+//@   ensures nopanic
+//@
 //@ // a tunnel direction must read from the reader that holds everything consumed from the connection so far: if a
 //@ // buffered reader was put over src and has read from it, bytes may sit in its buffer and reading src directly skips them
 //@ func (*Proxy).ServeTCP$1
